@@ -130,9 +130,16 @@ CHECKS.update({
 NOT_YET = {
 }
 
+CHECKS['C11'] = dict(
+    technique='static analysis (PARTIAL - structural necessary conditions only): grammar<->transformer agreement on the lark-compiled Verilog and bench grammars, finite evaluation of the range formula, slot checks of port bookkeeping, pin/signal pairing at the two connection sites, constant expansion, escaped-name stripping, bench driver order, branch-fork block',
+    text='PARTIAL CLAIM. The behavioural statement of C11 ("simulates as the described netlist" for every netlist text) is NOT decided; static analysis cannot bound it. Decided are clauses visible in the shape of verilog.py/bench.py '
+         'that are genuine necessary conditions: callbacks agree with what the grammars deliver; [l:r] enumerates l..r inclusive in both directions (all 64 cases); ports get consecutive positions in header order with bus bits in range order; '
+         'pin name and signal come from the same pin-map item and the pin index is looked up for the instantiated type, with direction deciding the Line orientation; sized constants expand MSB first; escaped names lose exactly backslash and terminator; '
+         'bench creates cell + same-named fork with drivers in argument order; the branch-fork option only inserts a fork.',
+    note='NOT decided (and a change that only breaks these is not detected): the multi-pass bookkeeping of declarations / driven signals / assigns / one-bit buses, statement-order independence, whitespace/comment placement, equivalence of the two formats, lexer ambiguities, and the end-to-end Boolean function. Needs generated netlists + simulation (another family).',
+    ref='DESIGN.md 2/C11 and 6')
+
 NOT_APPLICABLE = {
-    'C11': 'quantifies over netlist texts and compares simulated with described function; port/bus/constant/escape handling is computed from token values by '
-           'general string code - no clause visible in the shape of the code is close enough to the behaviour to decide it statically (needs generated netlists + simulation)',
 }
 
 
